@@ -86,6 +86,11 @@ def parseOp (st : St) : Nat → Json → R Op
   match k with
   | "setCell" => pure (.setCell (← str j "x") (← nat j "i") (← parseImm (← obj j "v")))
   | "rebind" => pure (.rebind (← str j "x") (← nat j "n"))
+  | "assignFrom" =>
+    -- the source array is the other root's variable *now* (the real call evaluates `other.Y` at call time)
+    match nav st.heap (← rootLoc st (← str j "from")) ["_" ++ (← str j "fx")] with
+    | some l => pure (.assignFrom (← str j "x") l (← bool j "inplace"))
+    | none => throw "assignFrom: no such source variable"
   | "addVariable" => pure (.addVariable (← str j "x") (← nat j "n") (← bool j "model"))
   | "addAttrImm" => pure (.addAttrImm (← str j "x") (← parseImm (← obj j "v")))
   | "addAttrList" => pure (.addAttrList (← str j "x") (← strs (← obj j "items")))
